@@ -923,3 +923,6 @@ def run_case(case):
 
 def known_match(case, failure, entry):
     return False
+
+
+RULE += (" " + 'One history in four runs next to a twin file that holds linked-block elements under the same tags/refs (other block geometry, length and bytes) with read access ids open during the whole history; both files must keep returning their own bytes.')
